@@ -90,7 +90,10 @@ public:
 
     auto ret = UNSAFE_unverified();
     if (ret != nullptr) {
-      size_t bytes = sizeof(T) * count;
+      using T_El = detail::valid_array_el_t<std::remove_cv_t<T_Pointed>>;
+      detail::dynamic_check(count <= static_cast<size_t>(-1) / sizeof(T_El),
+                            "Range size overflows");
+      size_t bytes = sizeof(T_El) * count;
       detail::check_range_doesnt_cross_app_sbx_boundary<T_Sbx>(ret, bytes);
     }
     return ret;
